@@ -73,8 +73,8 @@ Step ==
                   \/ /\ ~ENABLED Explain
                      /\ PrintT(<<"DIVERGE", l>>)
                      /\ UNCHANGED <<W, run>> /\ div' = TRUE
-          /\ LET new == TM'.viol \ TM.viol
-             IN  new # {} => PrintT(<<"MONITOR", l, { v.c : v \in new }, UNION { v.t : v \in new }>>)
+          \* one report per new violation (kept short: TLC wraps printed values at 80 columns)
+          /\ \A v \in TM'.viol \ TM.viol : PrintT(<<"MONITOR", l, {v.c}, v.t>>)
 
 TraceNext == Step
 TraceSpec == TraceInit /\ [][TraceNext]_tvars
